@@ -113,6 +113,11 @@ pub struct BatchStats {
     pub block_ticks: u64,
     pub shared_hits: u64,
     pub futex_waits: u64,
+    pub lib_threads: u64,
+    pub timeouts: u64,
+    pub sleeps: u64,
+    pub yields: u64,
+    pub rescued: u64,
     pub us_spawn: u64,
     pub us_total: u64,
     pub sched_nontrivial: BTreeSet<u64>,
@@ -183,6 +188,11 @@ pub fn run_batch(
                     bs.block_ticks += g("bt");
                     bs.shared_hits += g("shh");
                     bs.futex_waits += g("fw");
+                    bs.lib_threads += g("hl");
+                    bs.timeouts += g("tmo");
+                    bs.sleeps += g("slp");
+                    bs.yields += g("yld");
+                    bs.rescued += g("rsc");
                     bs.us_spawn += g("us_spawn");
                     bs.us_total += g("us_total");
                     bs.max_inflight = bs.max_inflight.max(g("mi"));
@@ -340,6 +350,8 @@ fn batch_json(b: &BatchStats) -> Value {
         "crashed": b.crashed, "crash_examples": b.crash_examples, "degraded_to_call_granularity": b.degraded,
         "calls": b.calls, "ticks": b.ticks, "block_ticks": b.block_ticks, "decision_points": b.steps, "context_switches": b.switches,
         "shared_access_hits": b.shared_hits, "futex_waits_intercepted": b.futex_waits, "virtual_clock_reads": b.clock_reads,
+        "library_threads_adopted": b.lib_threads, "timed_waits_ended_by_the_scheduler": b.timeouts, "sleeps_intercepted": b.sleeps, "yields_intercepted": b.yields,
+        "wakeups_from_outside_the_simulator": b.rescued,
         "runs_with_intra_call_preemption": b.runs_with_preempt,
         "distinct_schedules_with_intra_call_preemption": b.sched_nontrivial.len(),
         "max_calls_in_flight": b.max_inflight,
@@ -725,7 +737,7 @@ pub fn check(o: &CheckOpts) -> i32 {
     // isolated nondeterminism: two isolated evaluations of the same call differ
     for (k, (call, a, b)) in ost.isolated_nondeterminism.iter().enumerate().take(3) {
         raw_violations += 1;
-        let case = Case { threads: vec![vec![call.clone()]], churn: vec![vec![]], start: 0, switches: vec![], jumps: vec![vec![]], depths: vec![vec![]], cpus: vec![0] };
+        let case = Case { threads: vec![vec![call.clone()]], churn: vec![vec![]], start: 0, switches: vec![], jumps: vec![vec![]], depths: vec![vec![]], cpus: vec![0], entropy: 0 };
         let rr = RunResult {
             status: "violation".into(),
             rec: json!({"violation": {"kind": "isolated_nondeterminism", "call": call.to_json(), "expected": a, "observed": b, "client": 0, "call_no": 0}}),
@@ -745,7 +757,7 @@ pub fn check(o: &CheckOpts) -> i32 {
     }
     for (k, (call, a, b)) in amb.mismatches.iter().enumerate().take(2) {
         raw_violations += 1;
-        let case = Case { threads: vec![vec![call.clone()]], churn: vec![vec![]], start: 0, switches: vec![], jumps: vec![vec![]], depths: vec![vec![]], cpus: vec![0] };
+        let case = Case { threads: vec![vec![call.clone()]], churn: vec![vec![]], start: 0, switches: vec![], jumps: vec![vec![]], depths: vec![vec![]], cpus: vec![0], entropy: 0 };
         let rr = RunResult {
             status: "violation".into(),
             rec: json!({"violation": {"kind": "isolated_nondeterminism", "detail": "differs between a forked child of the driver and a freshly exec'd process with another environment / address-space layout", "call": call.to_json(), "expected": a, "observed": b, "client": 0, "call_no": 0}}),
@@ -1036,7 +1048,7 @@ pub fn check(o: &CheckOpts) -> i32 {
             });
             let _ = std::fs::write(&path, serde_json::to_string_pretty(&v).unwrap_or_default());
             let class = ("any".to_string(), kind.to_string());
-            let case = Case { threads: vec![], churn: vec![], start: 0, switches: vec![], jumps: vec![], depths: vec![], cpus: vec![] };
+            let case = Case { threads: vec![], churn: vec![], start: 0, switches: vec![], jumps: vec![], depths: vec![], cpus: vec![], entropy: 0 };
             let kn = match_known(&known, &class, &case);
             findings.push(Finding { file: path, class, case, known: kn, confidence: format!("{} of {} Miri seeds fail", m.failing_seeds.len(), m.seeds) });
         }
@@ -1104,6 +1116,11 @@ pub fn check(o: &CheckOpts) -> i32 {
             "probes": {
                 "virtual_clock_reads_by_the_library": batches.iter().map(|b| b.clock_reads).sum::<u64>(),
                 "futex_waits_intercepted": batches.iter().map(|b| b.futex_waits).sum::<u64>(),
+                "library_threads_adopted": batches.iter().map(|b| b.lib_threads).sum::<u64>(),
+                "timed_waits_ended_by_the_scheduler": batches.iter().map(|b| b.timeouts).sum::<u64>(),
+                "sleeps_intercepted": batches.iter().map(|b| b.sleeps).sum::<u64>(),
+                "yields_intercepted": batches.iter().map(|b| b.yields).sum::<u64>(),
+                "wakeups_from_outside_the_simulator": batches.iter().map(|b| b.rescued).sum::<u64>(),
                 "shared_access_hits": batches.iter().map(|b| b.shared_hits).sum::<u64>(),
                 "block_ticks": batches.iter().map(|b| b.block_ticks).sum::<u64>(),
                 "work_differs_calls": wd,
@@ -1148,6 +1165,13 @@ pub fn check(o: &CheckOpts) -> i32 {
         evaluations, nontrivial.len(), calls, ticks, switches, inconc, lost, crashed, filled, cells, wall
     );
     println!("fault kinds fired: {}", (0..10).map(|k| format!("{}={}", FAULT_NAMES[k], f[k])).collect::<Vec<_>>().join(" "));
+    {
+        let lt: u64 = batches.iter().map(|b| b.lib_threads).sum();
+        let (tm, sl, yl, rs): (u64, u64, u64, u64) = batches.iter().fold((0, 0, 0, 0), |a, b| (a.0 + b.timeouts, a.1 + b.sleeps, a.2 + b.yields, a.3 + b.rescued));
+        if lt + tm + sl + yl + rs > 0 {
+            println!("threads and timers of the library itself: {} threads adopted by the scheduler, {} sleeps and {} yields turned into decision points, {} timed waits ended by the scheduler, {} wake-ups from outside the simulator", lt, sl, yl, tm, rs);
+        }
+    }
     if evaluations == 0 {
         eprintln!("HARNESS-ERROR: no run reached a verdict");
         return 2;
